@@ -226,7 +226,11 @@ fn io_part(ctx: &mut Ctx) {
             continue;
         }
         let mut r = Rng::derive(ctx.seed, &[17, j]);
-        let mut s = gen::snap(&mut r, &StateOpts { vals: Vals::Mixed, max_depth: 3, graphs: false, io: false, bindings: false, flags: false, random_cfg: false }, &names);
+        // (interpreter flags - pending NAME.QUOTE, pending NAME.SEND - bindings and configuration vary too: no IO instruction reads them)
+        let mut s = gen::snap(&mut r, &StateOpts { vals: Vals::Mixed, max_depth: 3, graphs: false, io: false, bindings: j % 3 == 0, flags: true, random_cfg: j % 5 == 0 }, &names);
+        if j % 2 == 0 {
+            s.s = true;
+        }
         s.e.clear();
         let mut st = build_state(&s);
         // model of what was written / delivered, with unique message ids in the header
